@@ -53,3 +53,40 @@ func TestVerifWitnessC01EmbedPlusAttachment(t *testing.T) {
 		t.Errorf("the message has one embed and one attachment, an independent reader finds %d leaf/leaves (top-level type %s)", leaves, mediaType)
 	}
 }
+
+// A File's Content-Transfer-Encoding header was written on the first render and kept: after File.Enc changed, later
+// renders announced the old encoding over a body in the new one. Obligation:
+// mail.msgWriter.addFiles#at[file-encoding-announced-is-applied].
+func TestVerifWitnessC01FileEncodingAnnouncedIsApplied(t *testing.T) {
+	m := NewMsg()
+	_ = m.From("a@example.com")
+	_ = m.To("b@example.com")
+	m.SetBodyString(TypeTextPlain, "x")
+	if err := m.AttachReader("a.txt", strings.NewReader("hello = world")); err != nil {
+		t.Fatal(err)
+	}
+	var first bytes.Buffer
+	if _, err := m.WriteTo(&first); err != nil {
+		t.Fatal(err)
+	}
+	m.GetAttachments()[0].Enc = EncodingQP
+	var second bytes.Buffer
+	if _, err := m.WriteTo(&second); err != nil {
+		t.Fatal(err)
+	}
+	out := second.String()
+	i := strings.Index(out, `filename="a.txt"`)
+	if i < 0 {
+		t.Fatalf("attachment not found:\n%s", out)
+	}
+	j := strings.LastIndex(out[:i], "\r\n--")
+	k := strings.Index(out[i:], "\r\n\r\n")
+	hdr := out[j : i+k]
+	body := out[i+k+4:]
+	if strings.Contains(body, "hello =3D world") && !strings.Contains(hdr, "Content-Transfer-Encoding: quoted-printable") {
+		t.Fatalf("the attachment is quoted-printable but announced otherwise:\n%s", hdr)
+	}
+	if !strings.Contains(body, "hello =3D world") {
+		t.Fatalf("expected a quoted-printable body on the second render:\n%s", body)
+	}
+}
